@@ -196,6 +196,8 @@ class Ctx:
         self.resumed = False
         self.just_returned = False
         self.statics = {}
+        self.unwinding = False
+        self.unwind_floor = 0
 
     def clone(self):
         c = Ctx(self.eng, self.tid)
@@ -207,6 +209,8 @@ class Ctx:
         c.nfid = self.nfid
         c.depth = self.depth
         c.statics = {k: clone(v) for k, v in self.statics.items()}
+        c.unwinding = self.unwinding
+        c.unwind_floor = self.unwind_floor
         return c
 
     def guard(self):
@@ -272,6 +276,9 @@ class Engine:
         self.loop_bounds = {}
         self.merge_fns = []
         self.merging = True
+        self.static_objs = {}
+        self.nd = []
+        self.drop_impls = False
         self.solver = z3.Solver()
         self.functions_executed = set()
         self.callees_modelled = set()
@@ -552,6 +559,24 @@ class Engine:
                     out.append(("ctx", ctx))
                 return out
             elif k == "drop":
+                # user Drop impls of /repo types run as real MIR
+                dty = self.place_type(f, term[1])
+                db = None
+                if dty:
+                    cands = [b for b in self.prog.by_last.get("drop", []) if b.impl and b.impl[0] == "Drop" and b.impl[1] == base_name(dty)]
+                    if len(cands) == 1 and self.drop_impls:
+                        db = cands[0]
+                if db is not None:
+                    try:
+                        ptr = self.eval_place(ctx, f, term[1])
+                        has = True
+                        if ptr.root[0] == "local" and not ptr.path:
+                            has = ptr.root[2] in self.frame_by_id(ctx, ptr.root[1]).locals
+                    except Unsupported:
+                        has = False
+                    if has:
+                        self.push_frame(ctx, db, [ptr], (None, term[2]))
+                        continue
                 r = self.exec_drop(ctx, f, term[1])
                 f.bb = term[2]
                 if r is not None:
@@ -565,6 +590,16 @@ class Engine:
                     return r
             elif k == "unreachable":
                 return [("leaf", Leaf(ctx, "cut", detail="unreachable"))]
+            elif k == "resume" and ctx.unwinding:
+                ctx.frames.pop()
+                if len(ctx.frames) <= until_depth or not ctx.frames:
+                    lf = Leaf(ctx, "done", ret=Native("panicked", None))
+                    lf.ctx = ctx
+                    ctx.unwinding = False
+                    return [("leaf", lf)]
+                r = self.unwind(ctx)
+                if r is not None:
+                    return r
             elif k in ("resume", "cleanup", "terminate", "abort"):
                 return [("leaf", Leaf(ctx, "panic", detail=f"{body.name}: {k}"))]
             else:
@@ -909,7 +944,13 @@ class Engine:
             if t.startswith("{closure@"):
                 return Closure(t, {})
             return FnItem(t)
-        mm = re.search(r"(\w+)::promoted\[(\d+)\]$", c)
+        ma = re.match(r"^\{(alloc\d+)(?:: .*)?\}$", c)
+        if ma:
+            name = self.prog.allocs.get((getattr(f.body, "crate", None), ma.group(1))) or self.prog.allocs.get(ma.group(1))
+            if name and name.split("::")[-1] in self.static_objs:
+                return self.static_objs[name.split("::")[-1]]
+            raise Unsupported(f"static allocation {c} ({name}) has no object in this scenario")
+        mm = re.search(r"(\w+)::promoted\[(\d+)\]$", strip_generics(c))
         if mm:
             # promoted constant of the function being executed (or of a caller that passed it on)
             cands = [b for n, b in self.prog.bodies.items() if n.endswith(f"::{mm.group(1)}::promoted[{mm.group(2)}]") or n == f"{mm.group(1)}::promoted[{mm.group(2)}]"]
@@ -1211,6 +1252,18 @@ class Engine:
             return self.call_value(ctx, f, callee, args, dest, ret_bb, dty)
         path = fn[1]
         norm = norm_callee(path)
+        if self.drop_impls and re.match(r"^(std|core)::mem::drop$", norm):
+            # mem::drop(x) of a /repo type with a Drop impl: run that impl on the moved value
+            mt = re.search(r"mem::drop::<(.*)>$", path, re.S)
+            if mt:
+                cands = [b for b in self.prog.by_last.get("drop", []) if b.impl and b.impl[0] == "Drop" and b.impl[1] == base_name(mt.group(1))]
+                if len(cands) == 1:
+                    tmp = 700000 + len(ctx.trace)
+                    f.locals[tmp] = args[0]
+                    if dest is not None:
+                        self.write_place(ctx, f, dest, UNIT)
+                    self.push_frame(ctx, cands[0], [Ptr(("local", f.fid, tmp))], (None, ret_bb))
+                    return None
         # 1. models
         for pat, h in self.models.items():
             if pat.startswith("__"):
@@ -1300,6 +1353,14 @@ class Engine:
                 if isinstance(val, Diverge):
                     out.append(("leaf", Leaf(c2, val.status, detail=val.detail)))
                     continue
+                if isinstance(val, Unwind):
+                    r2 = self.unwind(c2)
+                    out.extend(r2 if r2 is not None else [("ctx", c2)])
+                    continue
+                if isinstance(val, TailCall):
+                    r2 = self.call_value(c2, f2, val.callee, val.args, dest, ret_bb, None)
+                    out.extend(r2 if r2 is not None else [("ctx", c2)])
+                    continue
                 if dest is not None:
                     self.write_place(c2, f2, dest, val)
                 if ret_bb is None:
@@ -1312,12 +1373,42 @@ class Engine:
             return out
         if isinstance(r, Diverge):
             return [("leaf", Leaf(ctx, r.status, detail=r.detail))]
+        if isinstance(r, TailCall):
+            return self.call_value(ctx, f, r.callee, r.args, dest, ret_bb, None)
+        if isinstance(r, Unwind):
+            return self.unwind(ctx)
         if dest is not None:
             self.write_place(ctx, f, dest, r)
         if ret_bb is None:
             return [("leaf", Leaf(ctx, "panic", detail="diverging call"))]
         f.bb = ret_bb
         return None
+
+    def unwind(self, ctx):
+        """a panic propagates: continue at the unwind target of the call being executed in the top frame; frames
+        without a cleanup target are popped"""
+        while ctx.frames:
+            fr = ctx.frames[-1]
+            term = fr.body.blocks[fr.bb][1]
+            tgt = None
+            if term[0] == "call" and term[5]:
+                m = re.match(r"bb(\d+)", term[5].strip())
+                if m:
+                    tgt = int(m.group(1))
+            elif term[0] == "drop" and term[3]:
+                m = re.match(r"bb(\d+)", str(term[3]).strip())
+                if m:
+                    tgt = int(m.group(1))
+            if tgt is not None:
+                fr.bb = tgt
+                ctx.unwinding = True
+                return None
+            ctx.frames.pop()
+            if len(ctx.frames) <= ctx.unwind_floor:
+                break
+        lf = Leaf(ctx, "done", ret=Native("panicked", None))
+        lf.ctx = ctx
+        return [("leaf", lf)]
 
 
 def pointee_type(ty):
@@ -1675,6 +1766,17 @@ def merge_ctxs(group):
     c.last = lasts
     c.obs = obs
     return c
+
+
+class TailCall:
+    """model result: perform this call (closure / fn item / native) in place of the modelled callee"""
+    def __init__(self, callee, args):
+        self.callee, self.args = callee, args
+
+
+class Unwind:
+    """model result: the callee panics; unwinding starts at the call site"""
+    pass
 
 
 class Fork:
